@@ -137,9 +137,14 @@ Print Assumptions C20_virtual_store.
    its visible runes.  The runes the trim looks for are ESC and 'm'.  (All by computation on
    Gen/GenTerm.v: a changed sequence breaks these proofs.) *)
 Theorem C20_sequences : forall (tc : tcfg) (cm : cmd) (s : scr),
-  match cm with Text t => wf_text t = true | Up n => n = 1%N | _ => True end ->
+  match cm with
+  | Text t => wf_text t = true
+  | Up n => n = 1%N
+  | EraseEOL => ccol s = 0   (* the writer erases right after CR; there ESC[0K, ESC[K and ESC[2K coincide *)
+  | _ => True
+  end ->
   run tc (s, Ground) (render_cmd cm) = (interp tc s cm, Ground).
-Proof. exact run_render_cmd. Qed.
+Proof. exact run_render_cmd_at. Qed.
 Theorem C20_trim_runes : TrimSeqStart = 27%N /\ TrimSeqEnd = 109%N.
 Proof. vm_compute. split; reflexivity. Qed.
 Print Assumptions C20_sequences.
@@ -188,12 +193,12 @@ Print Assumptions C20_check_trim_ok.
    AutoTrim on, the text abcd is cut to abc and shown whole (first statement, also an instance of
    C20_screen_latest).  The order of the pinned tree — CR, text, erase — issued the erase with the
    cursor still ON the last column and left ab on the screen (second statement, the pinned
-   sequence written out). *)
+   byte sequence written out). *)
 Theorem C20_dec_margin_repaired :
   nth 0 (rows (fst (run (mktc 3 false true) (scr0, Ground)
                         (tw_output (mkcfg true 3) [(0, [97;98;99;100]%N)])))) [] = [97;98;99]%N /\
   nth 0 (rows (fst (run (mktc 3 false true) (scr0, Ground)
-                        (render [HideCur; CR; Text [97;98;99]%N; EraseEOL; CR; LF; ShowCur])))) [] = [97;98]%N.
+                        [13; 97;98;99; 27;91;48;75; 13; 10]%N))) [] = [97;98]%N.   (* CR a b c ESC[0K CR LF *)
 Proof. vm_compute. split; reflexivity. Qed.
 Print Assumptions C20_dec_margin_repaired.
 
